@@ -263,8 +263,7 @@ def gen_case(rng, tier, index):
             case["args"] = {"scheme": rng.choice([1, 2, 3, 4])}
         else:
             case["args"] = enc({"scheme": rng.choice([0, 5, -1, 9, "1", "W1", None, 2.5])})
-            if not wl["diti_mode"]:
-                case["faults"].append("scheme")
+            case["faults"].append("scheme")  # an invalid scheme is invalid whatever the tip type
     elif entry == "decontaminate":
         if wl["diti_mode"]:
             case["faults"].append("decontaminate_in_diti_mode")
@@ -302,7 +301,7 @@ def gen_case(rng, tier, index):
             if rng.random() < 0.5:
                 kw["tip"] = gen_tip(rng)
             flds = ["sep:liquid_class", "sep:rack_id", "sep:tube_id", "sep:rack_type", "sep:forced_rack_type", "long:rack_id", "long:rack_type"]
-            if op == "transfer" and not wl["diti_mode"]:
+            if op == "transfer":
                 flds += ["scheme:wash_scheme"] * 2
         if rng.random() < p_fault:
             f = rng.choice(flds)
@@ -323,6 +322,11 @@ def gen_case(rng, tier, index):
         case["label"] = rng.choice([None, "", "lbl", "µ-step"])
         case["volume"] = rng.choice([10, 12.345, 0.5, mx])
         case["n"] = rng.randint(1, 4)
+        if op in ("aspirate", "dispense") and not case["faults"] and rng.random() < 0.15:
+            # the volume of a LATER well cannot be represented (above max_volume): nothing of the call is written
+            case["n"] = rng.randint(2, 4)
+            case["volume"] = [10.0] * (case["n"] - 1) + [mx + rng.choice([0.01, 1.0, mx])]
+            case["faults"].append("vol:later_well_over_max")
     return case
 
 
@@ -548,6 +552,9 @@ def _run_passthrough(ctx, case):
                 key = K_RLC
         ctx.check("unrepresentable_call_raises", exc is not None, det, key=key)
         ctx.check("raising_call_appends_no_pipetting_record", bad is None and not any(r.type in ("A", "D", "R") for r in recs), det, key=key)
+        if op in ("aspirate", "dispense", "transfer") and exc is not None:
+            # "raises and appends nothing": not even the label comment of the refused call
+            ctx.check("raising_call_appends_nothing", len(new) == 0, det)
         ctx.case(case, True)
         return
     if not ctx.check("representable_call_is_accepted", exc is None, det):
